@@ -294,14 +294,12 @@ pub fn run_case(rep: &mut Report, seed: u64, shard: u64, case: u64) {
     }
 }
 
-fn close_wd(r: &mut vmon::srv::Running, secs: u64) -> Option<Result<(), String>> {
-    let server = r.server.take()?;
-    let rt = r.rt.as_ref()?;
-    match vmon::panics::catch_quiet(std::panic::AssertUnwindSafe(|| {
-        rt.block_on(async { tokio::time::timeout(Duration::from_secs(secs), server.close()).await.ok() })
-    })) {
-        Ok(r) => r,
-        Err(p) => Some(Err(format!("close() panicked: {}", p.message))),
+fn close_wd(r: &mut vmon::srv::Running, _secs: u64) -> Option<Result<(), String>> {
+    // bounded from outside the server's runtime (vmon::srv::CLOSE_WATCHDOG_S); a close()
+    // that does not return is no verdict here
+    match r.close() {
+        Some(Err(e)) if e.contains(vmon::srv::CLOSE_HUNG) => None,
+        other => other,
     }
 }
 
